@@ -164,14 +164,14 @@ pub fn impl_proc_res(p: &HttpProcessors, data: &[u8]) -> String {
 // ------------------------------------------------------------------------------------------ heads
 
 #[derive(Clone, Default)]
-struct Field {
+pub struct Field {
     name: Vec<u8>,
     ows1: Vec<u8>,
     value: Vec<u8>,
     ows2: Vec<u8>,
 }
 #[derive(Clone)]
-struct Weight {
+pub struct Weight {
     ows: Vec<u8>,
     upper: bool,
     whole: u8,
@@ -180,14 +180,14 @@ struct Weight {
     trail: Vec<u8>,
 }
 #[derive(Clone)]
-struct LangItem {
+pub struct LangItem {
     pre: Vec<u8>,
     tag: Vec<u8>,
     post: Vec<u8>,
     weight: Option<Weight>,
 }
 #[derive(Clone)]
-struct ReqHead {
+pub struct ReqHead {
     method: Vec<u8>,
     target: Vec<u8>,
     ver: u8,
@@ -195,7 +195,7 @@ struct ReqHead {
     langs: Vec<LangItem>,
 }
 #[derive(Clone)]
-struct ResHead {
+pub struct ResHead {
     ver: u8,
     status: Vec<u8>,
     reason: Vec<u8>,
@@ -222,7 +222,7 @@ fn render_fields(out: &mut Vec<u8>, fs: &[Field]) {
     }
     out.extend_from_slice(b"\r\n");
 }
-fn render_req(h: &ReqHead) -> Vec<u8> {
+pub fn render_req(h: &ReqHead) -> Vec<u8> {
     let mut out = Vec::new();
     out.extend_from_slice(&h.method);
     out.push(b' ');
@@ -233,7 +233,7 @@ fn render_req(h: &ReqHead) -> Vec<u8> {
     render_fields(&mut out, &h.fields);
     out
 }
-fn render_res(h: &ResHead) -> Vec<u8> {
+pub fn render_res(h: &ResHead) -> Vec<u8> {
     let mut out = Vec::new();
     out.extend_from_slice(ver_text(h.ver));
     out.push(b' ');
@@ -582,7 +582,7 @@ fn target(r: &mut Rng) -> Vec<u8> {
     }
 }
 
-fn gen_req(r: &mut Rng) -> ReqHead {
+pub fn gen_req(r: &mut Rng) -> ReqHead {
     let names = req_names();
     let method = if r.chance(1, 25) { r.pick(&BAD_METHODS).as_bytes().to_vec() } else if r.chance(1, 30) { r.pick(&METHODS[16..]).as_bytes().to_vec() } else { r.pick(&METHODS[..16]).as_bytes().to_vec() };
     let ver = if r.chance(1, 30) { r.range(2, 3) as u8 } else { r.below(2) as u8 };
@@ -637,7 +637,7 @@ fn gen_req(r: &mut Rng) -> ReqHead {
     ReqHead { method, target: target(r), ver, fields, langs }
 }
 
-fn gen_res(r: &mut Rng) -> ResHead {
+pub fn gen_res(r: &mut Rng) -> ResHead {
     let names = res_names();
     let ver = if r.chance(1, 30) { r.range(2, 3) as u8 } else { r.below(2) as u8 };
     let status = match r.below(36) {
@@ -659,7 +659,7 @@ fn gen_res(r: &mut Rng) -> ResHead {
     ResHead { ver, status, reason, fields: (0..n).map(|_| field(r, &names)).collect() }
 }
 
-fn body(r: &mut Rng) -> Vec<u8> {
+pub fn body(r: &mut Rng) -> Vec<u8> {
     match r.below(12) {
         0 | 1 => vec![],
         2 => b"hello world".to_vec(),
